@@ -71,7 +71,7 @@ class C12(Check):
         "Hypothesis draws a signature (1-4 parameters, trailing defaults, optionally a keyword-only parameter - for the "
         "Predicate inherited from a kw_only base dataclass, so that field order and __init__ order differ), compiled from generated source as a "
         "@symbolic_function and as a Predicate dataclass, and a call shape (each argument positional, keyword or "
-        "omitted-with-default; each a query variable, an attribute of one, a nested symbolic call, or a concrete value; the same variable may "
+        "omitted-with-default; each a query variable, an attribute of one, a nested symbolic call, or a concrete value (ints, and bools/floats equal to them); the same variable may "
         "occur in several positions), with 1-2 variables over domains of 0-4 objects or of plain ints including 0, "
         "optionally after an always-true condition that binds the first variable, optionally in conjunction with the "
         "very expression object that was passed as one of its arguments. Oracle: an all-concrete call "
@@ -102,6 +102,7 @@ class C12(Check):
                 st.integers(0, n_vars - 1).map(lambda i: {"v": i}),
                 st.integers(0, n_vars - 1).map(lambda i: {"va": i}),
                 st.integers(0, 4).map(lambda c: {"c": c}),
+                st.sampled_from([False, True, 0.0, 1.0, 2.0]).map(lambda c: {"c": c}),  # equal to ints, but other objects
                 st.integers(0, n_vars - 1).map(lambda i: {"g": i}),
             )
             n_pos = draw(st.integers(0, n))
@@ -212,7 +213,8 @@ class C12(Check):
             return d
 
         def freeze(d):
-            return tuple((k, getattr(v, "_label", v)) for k, v in sorted(d.items()))
+            # the type is part of the value: False, 0 and 0.0 are equal but not the same argument
+            return tuple((k, getattr(v, "_label", (type(v).__name__, v))) for k, v in sorted(d.items()))
 
         def label(vi, o):
             return (vi, o) if plain[vi] else o._label
